@@ -37,14 +37,15 @@ type Op struct {
 func (o Op) String() string { return fmt.Sprintf("OP %s %d strict=%v", o.Kind, o.Arg, o.Strict) }
 
 type c14Params struct {
-	L        int
-	retain   uint
-	pause    int
-	losts    []int
-	second   bool // a second sender goroutine issuing two sends concurrently
-	flat     int  // flat run: that many sends, then lost(65535)
-	noClose  bool
-	noInject bool
+	L           int
+	retain      uint
+	pause       int
+	losts       []int
+	second      bool // a second sender goroutine issuing two sends concurrently
+	flat        int  // flat run: that many sends, then lost(65535)
+	noClose     bool
+	noInject    bool
+	resendFails bool // a socket write may fail while a lost batch is being repeated
 }
 
 var errInjected = errors.New("injected send failure")
@@ -55,10 +56,17 @@ func c14Run(p c14Params) func() {
 		sock.LogHandoff = true
 		r, _ := knx.NewRouterOnSocket(sock, knx.RouterConfig{RetainCount: p.retain, PostSendPauseDuration: mc.Duration(p.pause) * ms})
 		failNext := false
-		sock.FailSend = func(knxnet.ServicePackable) error {
+		failIn := 0 // >0: the failIn-th RoutingInd write from now fails (a transient error during a resend)
+		sock.FailSend = func(v knxnet.ServicePackable) error {
 			if failNext {
 				failNext = false
 				return errInjected
+			}
+			if _, ok := v.(*knxnet.RoutingInd); ok && failIn > 0 {
+				failIn--
+				if failIn == 0 {
+					return errInjected
+				}
 			}
 			return nil
 		}
@@ -95,6 +103,9 @@ func c14Run(p c14Params) func() {
 			id++
 		}
 		lost := func(k int) {
+			if p.resendFails && k >= 2 {
+				failIn = mc.Choose(3, mc.Free) // 0: none; 1 / 2: the first / second repeat cannot be written
+			}
 			settle := mc.Choose(2, mc.Free) == 0
 			strict := settle && !unsettled && !p.second
 			mc.Log(Op{"lost", k, strict})
@@ -260,6 +271,16 @@ func c14Oracle(p c14Params) func(tr *mc.Trace) []h.Violation {
 				}
 				// a retransmission
 				if x.Err != nil {
+					// the write failed: the attempt belongs to the batch, the message is no longer retained
+					if inStrict {
+						strictGot = append(strictGot, id)
+					}
+					for i, r := range ref {
+						if r == id {
+							ref = append(ref[:i:i], ref[i+1:]...)
+							break
+						}
+					}
 					continue
 				}
 				if failed[id] {
@@ -384,6 +405,8 @@ func init() {
 	register("both", &h.Scenario{Name: "C14-L5-retain3-sends-losts", Prop: "C14", P: 0, F: 0, D: -1, Run: c14Run(c), Check: c14Oracle(c)})
 	d := c14Params{L: 3, retain: 2, pause: 5, losts: []int{1, 2}, second: true, noClose: true}
 	register("both", &h.Scenario{Name: "C14-L3-retain2-second-sender", Prop: "C14", P: 1, F: 0, D: 1, Run: c14Run(d), Check: c14Oracle(d)})
+	rf := c14Params{L: 4, retain: 3, pause: 5, losts: []int{2, 3}, noClose: true, noInject: true, resendFails: true}
+	register("both", &h.Scenario{Name: "C14-L4-retain3-resend-write-fails", Prop: "C14", P: 0, F: 0, D: -1, Run: c14Run(rf), Check: c14Oracle(rf)})
 	f1 := c14Params{L: 0, retain: 0, pause: 1, flat: 300}
 	register("both", &h.Scenario{Name: "C14-flat300-default-retain", Prop: "C14", P: 0, F: 0, D: -1, Run: c14Run(f1), Check: c14Oracle(f1)})
 	f2 := c14Params{L: 0, retain: 64, pause: 1, flat: 300}
